@@ -359,10 +359,18 @@ def threads_and_fork(ctx):
                                "impl_records": res["recs"]}, False)
 
 # ---------------------------------------------------------------- end-to-end
-def c_program(fo_main, fo_threads):
-    """one C function per call node; main runs its forest, then each thread runs its own"""
+def c_program(fo_main, fo_threads, loc_of=None):
+    """one C function per call node; main runs its forest, then each thread runs its own.
+    loc_of: function class k -> label; the function is then compiled as if it stood in the source file loc<label>.c
+    (#line directive: that is the DW_AT_decl_file the location filter -L looks at)"""
     names = {}
-    out = ["#include <stdio.h>", "#include <pthread.h>", "static volatile unsigned long sink;"]
+    out = ["#include <stdio.h>", "#include <pthread.h>", "#include <time.h>", "static volatile unsigned long sink;",
+           # the program's own readings of the clock uftrace uses (CLOCK_MONOTONIC), taken just before a call and
+           # just after its return; clock_gettime is expanded inline (vDSO call, never instrumented)
+           "static unsigned long long BR[4096][2]; static int nbr;",
+           "#define NOW(x) do { struct timespec ts_; clock_gettime(CLOCK_MONOTONIC, &ts_); "
+           "(x) = ts_.tv_sec * 1000000000ULL + ts_.tv_nsec; } while (0)",
+           "#define BRACKET(i, call) do { NOW(BR[i][0]); call; NOW(BR[i][1]); } while (0)"]
     cnt = [0]
     protos, bodies = [], []
 
@@ -372,24 +380,37 @@ def c_program(fo_main, fo_threads):
         names[id(c)] = name
         kids = [emit(k) for k in c.kids]
         protos.append("void %s(void);" % name)
+        if loc_of is not None:
+            bodies.append('#line 1 "loc%s.c"' % loc_of(c.k))
         bodies.append("__attribute__((noinline)) void %s(void) { for (volatile int i = 0; i < 20; i++) sink += i; %s }"
                       % (name, " ".join("%s();" % k for k in kids)))
         return name
     mains = [emit(c) for c in fo_main]
     workers = []
+    nb = [len(mains)]
+    brk = {"main": list(range(len(mains)))}
     for ti, fo in enumerate(fo_threads):
         roots = [emit(c) for c in fo]
+        idxs = list(range(nb[0], nb[0] + len(roots)))
+        nb[0] += len(roots)
+        brk["worker%d" % ti] = idxs
         protos.append("void *worker%d(void *a);" % ti)
+        if loc_of is not None:
+            bodies.append('#line 1 "locmain.c"')
         bodies.append("__attribute__((noinline)) void *worker%d(void *a) { %s return a; }"
-                      % (ti, " ".join("%s();" % r for r in roots)))
+                      % (ti, " ".join("BRACKET(%d, %s());" % (i, r) for i, r in zip(idxs, roots))))
         workers.append("worker%d" % ti)
+    names["__brackets__"] = brk
     out += protos + bodies
+    if loc_of is not None:
+        out.append('#line 1 "locmain.c"')
     m = ["int main(void) {", "  pthread_t th[%d];" % max(1, len(workers))]
-    m += ["  %s();" % r for r in mains]
+    m += ["  BRACKET(%d, %s());" % (i, r) for i, r in enumerate(mains)]
     for i, w in enumerate(workers):
         m.append("  pthread_create(&th[%d], NULL, %s, NULL);" % (i, w))
     for i, w in enumerate(workers):
         m.append("  pthread_join(th[%d], NULL);" % i)
+    m += ["  for (int i = 0; i < %d; i++) printf(\"BR %%d %%llu %%llu\\n\", i, BR[i][0], BR[i][1]);" % nb[0]]
     m += ["  return 0;", "}"]
     return "\n".join(out + m) + "\n", names
 
@@ -489,8 +510,33 @@ def e2e(ctx, objdir):
             got = sorted([[(r[0], r[1], r[2]) for r in v] for v in streams.values()])
             bad_magic = any(r[4] != 5 for v in streams.values() for r in v)
             mono = all(all(v[i][3] <= v[i + 1][3] for i in range(len(v) - 1)) for v in streams.values())
+            # every timestamp lies between the program's own clock readings just before the call and just after the return
+            br = {}
+            for ln in o.split("\n"):
+                k = ln.split()
+                if len(k) == 4 and k[0] == "BR":
+                    br[int(k[1])] = (int(k[2]), int(k[3]))
+            bracket_bad = []
+            for v in streams.values():
+                if not v:
+                    continue
+                idxs = names["__brackets__"].get(v[0][2])
+                if idxs is None:
+                    continue
+                tops = [r for r in v if r[1] == 1]            # ENTRY/EXIT records of the bracketed (depth 1) calls
+                for j, ix in enumerate(idxs):
+                    if 2 * j + 1 >= len(tops) or ix not in br:
+                        bracket_bad.append((v[0][2], j, "missing"))
+                        continue
+                    ent, ext = tops[2 * j], tops[2 * j + 1]
+                    if not (ent[0] == 0 and ext[0] == 1 and br[ix][0] <= ent[3] <= ext[3] <= br[ix][1]):
+                        bracket_bad.append((v[0][2], j, br[ix], ent[3], ext[3]))
             ctx.case(key=("e2e", mname, src), tags=["e2e:" + mname, "e2e:threads=%d" % len(fo_threads)],
                      size=sum(len(x) for x in expect))
+            if bracket_bad and got == sorted(expect):
+                ctx.violation("C02 (end-to-end, %s): a recorded timestamp lies outside the program's own clock readings taken "
+                              "just before the call and just after the return" % mname,
+                              {"mode": "e2e-bracket", "method": mname, "program": src, "bad": bracket_bad[:5]}, True)
             if got != sorted(expect) or bad_magic or not mono:
                 ctx.violation("C02 (end-to-end, %s): decoded per-thread streams differ from the program's call forest"
                               % mname, {"mode": "e2e", "method": mname, "program": src,
